@@ -549,6 +549,20 @@ impl DocumentInline {
 
     pub fn key_range(&self) -> Option<InlineRange> {
         match self {
+            // [[key]] and [[key|text]]: the key follows the two opening brackets
+            DocumentInline::Link(link) if link.link_type != LinkType::Regular => {
+                let start = link.inline_range.start.character + 2;
+                Some(InlineRange {
+                    start: Position {
+                        line: link.inline_range.start.line,
+                        character: start,
+                    },
+                    end: Position {
+                        line: link.inline_range.start.line,
+                        character: start + link.target.url.encode_utf16().count(),
+                    },
+                })
+            }
             DocumentInline::Link(link) => {
                 Some(InlineRange {
                     start: Position {
